@@ -358,7 +358,7 @@ def main(argv=None):
             detail = det[0] if det else f["detail"]
         except Exception:
             detail = f["detail"]
-        rdir = os.path.join(env.VERIF_DIR, "replays", pid)
+        rdir = os.path.join(os.environ.get("VERIF_REPLAY_DIR") or os.path.join(env.VERIF_DIR, "replays"), pid)
         os.makedirs(rdir, exist_ok=True)
         rpath = os.path.join(rdir, sha({"b": b, "c": small})[:16] + ".json")
         with open(rpath, "w") as fh:
@@ -389,7 +389,7 @@ def main(argv=None):
         "wall_s": round(wall, 2),
         "violations": len(violations),
     }
-    edir = os.path.join(env.VERIF_DIR, "evidence")
+    edir = os.environ.get("VERIF_EVIDENCE_DIR") or os.path.join(env.VERIF_DIR, "evidence")
     os.makedirs(edir, exist_ok=True)
     try:
         with open(os.path.join(edir, pid + ".json"), "w") as fh:
